@@ -26,6 +26,8 @@ RULE = ('random call histories on one decoder state (decode of real-encoder pack
         'must reproduce return value, post-state and the inner call sequence with arguments and buffer extents, incl. the '
         'gain pass (once per frame, last, over audiosize*channels samples of the frame buffer; none inside the gain-cleared '
         'transition call) and the cross-fades, observed through the arithmetic macros of their inline loops; '
+        'the packet-inspection functions are run on exact-size heap copies and with varying guard bytes behind the packet for every 1- and '
+        '2-byte packet, structured 3/4-byte packets and generated / corrupted packets (opus_packet_has_lbrr also against the model); '
         'a case is distinct by (operation, outcome class)')
 NOT_COVERED = [
     'index arithmetic INSIDE silk_Decode / resamplers and, of celt_decode_with_ec_dred, everything except the decoder-state '
